@@ -918,9 +918,10 @@ def to_graph(ir):
     return conv(ir), table
 
 
-def linearize(root, table):
-    """(root, table) graph -> IR with each definition placed at its first use (depth-first)."""
-    placed = set()
+def linearize(root, table, already=()):
+    """(root, table) graph -> IR with each definition placed at its first use (depth-first).
+    Names in `already` are emitted as references even at their first occurrence."""
+    placed = set(already)
     out_table = {}
 
     def lin(node):
@@ -1312,3 +1313,61 @@ def reachable_table(root, table):
 
     visit(root)
     return seen
+
+
+def reach(name, table, acc=None):
+    """Named types reachable from definition `name` (including itself)."""
+    if acc is None:
+        acc = []
+    if name in acc:
+        return acc
+    acc.append(name)
+
+    def visit(node):
+        k = node["k"]
+        if k == "ref":
+            reach(node["name"], table, acc)
+        elif k == "array":
+            visit(node["items"])
+        elif k == "map":
+            visit(node["values"])
+        elif k == "union":
+            for b in node["branches"]:
+                visit(b)
+
+    d = table[name]
+    if d["k"] == "record":
+        for f in d["fields"]:
+            visit(f["type"])
+    return acc
+
+
+def piecewise_split(d, root, table):
+    """Choose named types to split off; returns (pieces [(ir, table)], remainder (ir, table), names_split) or None."""
+    names = list(table)
+    if root["k"] == "ref":
+        # never split off the top-level type itself (the remainder must stay a definition, not a bare name)
+        names = [n for n in names if n != root["name"] and root["name"] not in reach(n, table)]
+    if not names:
+        return None
+    chosen = [n for n in names if d.p(0.5)] or [d.choice(names)]
+    pieces = []
+    defined = []
+    # dependency order: a type's piece is emitted after the pieces of the chosen types it reaches
+    order = []
+    for n in chosen:
+        for m in reversed(reach(n, table)):
+            if m in chosen and m not in order:
+                order.append(m)
+    for n in order:
+        if n in defined:
+            continue
+        ir, t = linearize({"k": "ref", "name": n}, table, already=defined)
+        if not _spellable(ir, ""):
+            return None
+        pieces.append((ir, t))
+        defined.extend(t.keys())
+    rem_ir, rem_t = linearize(root, table, already=defined)
+    if not _spellable(rem_ir, ""):
+        return None
+    return pieces, (rem_ir, rem_t), defined
